@@ -445,6 +445,44 @@ func cmdCheck(args []string) int {
 			exit = 1
 		}
 	}
+	// thorough tier: the committed tests of the real code that demonstrated
+	// earlier defects of this property (replay/registry.json) are run again
+	// against the tree under check, with the race detector where they ask
+	// for it; a failing one is a violation replayed on the real code.
+	replaysRun := 0
+	if *tier == "thorough" && *only == "" {
+		seenFile := map[string]bool{}
+		if b, err := os.ReadFile(filepath.Join(verifDir, "replay", "registry.json")); err == nil {
+			reg := map[string]string{}
+			json.Unmarshal(b, &reg)
+			var files []string
+			for _, f := range reg {
+				if !seenFile[f] {
+					seenFile[f] = true
+					files = append(files, f)
+				}
+			}
+			sort.Strings(files)
+			for _, f := range files {
+				var meta struct {
+					Property   string `json:"property"`
+					Obligation string `json:"obligation"`
+				}
+				if fb, err := os.ReadFile(f); err != nil || json.Unmarshal(fb, &meta) != nil || meta.Property != *prop {
+					continue
+				}
+				replaysRun++
+				if passed, out := runGoTestReplay(*repo, f); !passed {
+					fmt.Printf("REPLAY-FAILS %s\n%s\n", f, truncate(out, 3000))
+					fmt.Printf("VIOLATION property=%s replay=%s\n", *prop, f)
+					violations = append(violations, "replay:"+meta.Obligation)
+					if exit == 0 {
+						exit = 1
+					}
+				}
+			}
+		}
+	}
 	// baseline obligations that disappeared
 	var missing []string
 	for name := range baseline {
@@ -513,6 +551,7 @@ func cmdCheck(args []string) int {
 			"samples":                  samples,
 			"load_s":                   loadS,
 			"contract_files":           p.files,
+			"replay_tests_run":         replaysRun,
 		},
 		"assumptions": al,
 		"wall_s":      time.Since(start).Seconds(),
